@@ -178,8 +178,8 @@ def record_and_judge(ctx, up, mode, args, label, timeout=900):
 def msg_of(header, s, ev):
     """Registry!MsgOf for hand-written records."""
     pe = header["pool"][s - 1]
-    shown = lambda k: k[2] == "" or (k[2] == "skip" and not pe["hide"]) or (k[2] == "incl" and pe["hide"])
-    return [[k[0], header["evVals"][ev][k[1]]] for k in header["selKeys"][pe["sel"]] if shown(k)]
+    shown = lambda k: k[2] in ("", "arg") or (k[2] == "skip" and not pe["hide"]) or (k[2] == "incl" and pe["hide"])
+    return [[k[0], {"k": "str", "v": pe["tag"]} if k[2] == "arg" else header["evVals"][ev][k[1]]] for k in header["selKeys"][pe["sel"]] if shown(k)]
 
 
 def _op_blocks(o, p, log):
